@@ -25,6 +25,9 @@ type Clause struct {
 type LoopContract struct {
 	Invariants []Clause
 	Decreases  *Clause
+	// ghost assignments performed at the end of every iteration (before the
+	// invariants are re-established): explicit witnesses for the invariants
+	GhostSets []GhostSet
 }
 
 type Contract struct {
@@ -369,6 +372,10 @@ func (cs *Contracts) loadFile(path, pkgPath, pkgName string) error {
 			if err != nil {
 				return fmt.Errorf("%s:%d: %v", path, ln, err)
 			}
+			if curLoop != nil {
+				curLoop.GhostSets = append(curLoop.GhostSets, GhostSet{Target: tc, Val: ve, Src: rest, File: path, Line: ln})
+				continue
+			}
 			cur.GhostSets = append(cur.GhostSets, GhostSet{Target: tc, Val: ve, Src: rest, File: path, Line: ln})
 			cur.HasMod = true
 			cur.Modifies = append(cur.Modifies, Clause{Src: rest[:i], E: te, File: path, Line: ln})
@@ -379,7 +386,7 @@ func (cs *Contracts) loadFile(path, pkgPath, pkgName string) error {
 				if part == "" {
 					continue
 				}
-				if strings.HasSuffix(part, ".*") {
+				if strings.HasSuffix(part, ".*") || strings.HasPrefix(part, "maps(") {
 					cur.Preserves = append(cur.Preserves, Clause{Src: part, File: path, Line: ln})
 					continue
 				}
